@@ -91,6 +91,15 @@ class NestedParent(WrappingQuery):
         self.per_parent_limit = per_parent_limit
         self.score_fn = score_fn
 
+    def _rewrap(self, child):
+        return self.__class__(self.parents, child, self.per_parent_limit,
+                              self.score_fn)
+
+    def field(self):
+        # The matches are the parent documents, not the documents the wrapped
+        # query matches in its field
+        return None
+
     def normalize(self):
         p = self.parents
         if isinstance(p, qcore.Query):
